@@ -79,8 +79,13 @@ def run(repo, tier) -> Result:
     # the resolver every formula reads through must not drop a legitimate 0 (volume == 0 -> None -> TypeError in VWAP/OBV)
     from .c20 import truthiness_sites
 
-    for fn in ("reading_by_index", "reading_by_candle", "_nested_indicator", "reading_period", "candles_sum"):
-        f = repo.func("hexital.utils.candles", fn)
+    _cm = repo.module("hexital.utils.candles")
+    for fn in ("reading_by_index", "reading_by_candle", "reading_period", "candles_sum"):
+        repo.func("hexital.utils.candles", fn)  # public anchors must exist
+    for fn in sorted(_cm.functions):
+        if fn in ("reading_count",):
+            continue
+        f = _cm.functions[fn]
         sites = truthiness_sites(f.node)
         if not sites:
             res.ok("R-TRUTH", {"function": f.qualname, "why": "no looked-up value in boolean context"})
